@@ -66,6 +66,24 @@ VARIABLES pr,        \* the promise's hand-over record
 
 vars == <<pr, bst, pendk, nawait, bscript, cscript, obs, got, finAt, loc, par, it, alive, pc>>
 
+(* obs[i].r, what access i reported:                                                        *)
+(*   "pending"  nothing yet (access in progress, or its future / co_await is outstanding)    *)
+(*   "val"      a value, obs[i].v                                                            *)
+(*   "end"      end of sequence: next()/co_await next()/iterator gave false, the future of   *)
+(*              gen() resolved without value; v = what value() returned on top (must be 0 =  *)
+(*              value_not_ready_exception)                                                   *)
+(*   "exc"      the exception that left the body (value() / the future rethrows it)          *)
+(*   "nomore"   the access itself threw no_more_values_exception: what the code does for     *)
+(*              gen() after the end and for every access after an exception was reported     *)
+(*              (_done stays false then, generator.h:178-183, so the h.done() tests fire)    *)
+(*   "notready" / "crash": true was reported but there is neither value nor exception / a    *)
+(*              null pointer was dereferenced -- never reachable (SameSequence, TypeOK)      *)
+(* obs[i].p: value handed out by a post-increment (iterator.h:60-64), else 0.               *)
+(* styles: "sync" if (gen.next()) gen.value();  "coawait" co_await gen.next();              *)
+(*   "future" gen() -> future<T> (looked at when ready, waited for, or co_awaited);          *)
+(*   "begin" it = gen.begin();  "inc" ++it;  "postinc" it++  (each followed by it != end()   *)
+(*   and *it; begin + inc runs are what a range-for executes)                                *)
+
 SyncStyles == {"sync", "begin", "inc", "postinc"}
 ArgVal(i) == IF WithArg THEN 100 + i ELSE 0
 Ob(r, v, p) == [r |-> r, v |-> v, p |-> p]
